@@ -1,6 +1,7 @@
 #!/bin/bash
 # usage: tools/try_seeded.sh <seeded-id> <check-id> [<check-id> ...]
 # applies /verif/seeded/<id>/patch.diff to /repo's working tree, runs the quick tier of the listed checks, and reverts.
+# The evidence file of each check is saved before and restored afterwards: evidence/ always describes the last run on the UNCHANGED tree.
 id=$1; shift
 cd /repo || exit 2
 git diff --quiet || { echo "/repo has uncommitted changes"; exit 2; }
@@ -9,5 +10,7 @@ trap 'cd /repo && git checkout -- . ' EXIT
 cd /verif
 for c in "$@"; do
   echo "=== seeded $id : check $c"
+  [ -f evidence/$c.json ] && cp evidence/$c.json /tmp/.evidence_$c.keep
   ./check $c --tier ${TIER:-quick} 2>&1 | grep -E "^(VIOLATION|  ->|KNOWN-FINDING|INCONCLUSIVE|RESULT)" | cut -c1-400 | head -${LINES_MAX:-12} | tee /verif/seeded/$id/result.txt
+  [ -f /tmp/.evidence_$c.keep ] && mv /tmp/.evidence_$c.keep evidence/$c.json
 done
